@@ -356,6 +356,8 @@ Successors(g, nm) == {i \in 1..Len(g.demes) : Has(g.demes[i].ancestors, nm)}
 \* pulses into demes that already exist, then new demes (branches, mergers, admixtures, splits), then pulses into demes
 \* born at t, finally unsampled demes that end at t without descendants are integrated out.
 \* A parent of a merger / admixture that ends at t and does not live on through a split at t ends with the event.
+\* (Not defined here: a pulse into a deme born at t out of a deme that itself ends at t - it would have to act between
+\* the two events; the conformance generators do not produce it.)
 EventsAt(g, ev, t, sampled) ==
     LET at(s)    == Pick(s, LAMBDA i : s[i].time = t)
         born(p)  == Deme(g, p.dest).start_time = t
@@ -417,6 +419,8 @@ RateIn(g, src, dst, iv) ==
 
 RootDeme(g) == g.demes[MinI({i \in 1..Len(g.demes) : g.demes[i].ancestors = <<>>})]
 
+\* stimes = <<>>: every sample is taken at the present (dadi's sample_times=None with sampled demes that reach time 0);
+\* otherwise stimes[i] is the sampling time of sampled0[i] in the graph's own time units.
 \* NeIn = NoneV: the reference size is the root deme's initial size.  evrec: recorded split orders (or <<>>).
 Import(g0, sampled0, stimes, NeIn, fnames, evrec, pw) ==
     LET aug   == AncientAugment(g0, sampled0, stimes, fnames, pw)
